@@ -74,11 +74,29 @@ Fixpoint assoc_v (k : str) (m : list (str * value)) : option value :=
   | (k', v) :: r => if str_eqb k k' then Some v else assoc_v k r
   end.
 
-(* deepEqual.Calc: lists element-wise (List.Equals), maps key-wise (Map.Equals: sizes, then every
-   entry of a looked up in b), scalars by the matrix; elements are compared deeply as well.
-   (Map.Equals passes the other map's value first to the element comparison; the outcome does not
-   depend on the direction - see veq_sym - and the model keeps the receiver's value first so that
-   the recursion is structural.) *)
+(* how Map.Equals combines the answers of two entries: an entry that cannot be compared makes the
+   whole comparison an error whatever the other entries say (the first error is returned), otherwise
+   a differing entry (or a missing key) makes it false.  An answer outside the exact model (Unsup) is
+   stronger than false/true (it may hide an error) and weaker than an error. *)
+Definition worse (r1 r2 : res bool) : res bool :=
+  match r1, r2 with
+  | OOF, _ | _, OOF => OOF
+  | Panic, _ | _, Panic => Panic
+  | Err t, _ => Err t
+  | _, Err t => Err t
+  | Unsup, _ | _, Unsup => Unsup
+  | Ok false, _ | _, Ok false => Ok false
+  | Ok true, Ok true => Ok true
+  end.
+
+(* deepEqual.Calc: lists element-wise (List.Equals: lengths, then position by position, stopping at the
+   first position that is not equal - false or error), maps key-wise (Map.Equals: sizes, then every
+   entry of the receiver looked up in the other map; ALL entries are combined with [worse], so the
+   answer depends neither on the order of the entries nor on which map is the receiver), scalars by
+   the matrix; elements are compared deeply as well.
+   (Map.Equals hands the other map's value to the element comparison first, equal(st, o, v); the model
+   keeps the receiver's value first so that the recursion is structural - by veq_sym (Sem/OpsLaws.v,
+   C14_eq_sym) the outcome is the same.) *)
 Fixpoint veq (a b : value) {struct a} : res bool :=
   match a, b with
   | VList la, VList lb =>
@@ -97,14 +115,10 @@ Fixpoint veq (a b : value) {struct a} : res bool :=
       (fix go (ma : list (str * value)) : res bool :=
          match ma with
          | (k, v) :: ma' =>
-             match assoc_v k mb with
-             | Some o =>
-                 match veq v o with
-                 | Ok true => go ma'
-                 | r => r
-                 end
-             | None => Ok false
-             end
+             worse (match assoc_v k mb with
+                    | Some o => veq v o
+                    | None => Ok false
+                    end) (go ma')
          | [] => Ok true
          end) ma
   | _, _ => eq_scalar a b
@@ -195,6 +209,14 @@ Fixpoint contains_all (l : list value) (look : list value) : res bool :=
       end
   end.
 
+(* containsAllItems answers false without looking at any element when the list's items are already
+   materialised (itemsPresent: literals, argument lists built with NewList, lists that have been
+   evaluated before) and there are fewer of them than items looked for; a lazy list is iterated, so
+   an incomparable element is an error there:  [1,"a"] ~ ["a"] is false, [1,"a"] ~ ["a"].map(e->e)
+   is an error.  Lists of the core model are materialised. *)
+Definition contains_all_repr (present : bool) (l look : list value) : res bool :=
+  if present && (Nat.ltb (length l) (length look)) then Ok false else contains_all l look.
+
 (* ---------- maps: Merge ---------- *)
 
 (* Map.Merge: the duplicate check remembers the colliding key in a string and tests it against "" *)
@@ -255,7 +277,7 @@ Definition calc (op : name) (a b : value) : res value :=
     match b with
     | VList l =>
         match a with
-        | VList search => rbool (contains_all l search)
+        | VList search => rbool (contains_all_repr true l search)
         | _ => rbool (contains_item a l)
         end
     | VMap m =>
